@@ -369,7 +369,7 @@ def check_C05(ctx):
     gen = ctx.gen("passthrough", 400 if ctx.quick else 20000)
     ctx.validate(ctx.run_cases(gen))
     gen2 = ctx.gen("scanbytes", 300 if ctx.quick else 20000)
-    ctx.validate(ctx.run_cases(gen2), module="TraceC05", nontrivial_key=lambda o: o["text"])
+    ctx.validate(ctx.run_cases(gen2), module="TraceC05", nontrivial_key=lambda o: o["text"], chunk=500, timeout=3000)
     ctx.exhaustive = False
     return finish(ctx, rule="MC_C05: the scanner as a state machine over every source of <= L symbols of a delimiter-rich "
                             "alphabet %s (partition/line invariants in every scanner state), each source tokenised by "
